@@ -42,6 +42,8 @@ void jb_emit(jb_t *j);
 /* ---------- records ---------- */
 extern uint64_t g_seed;       /* VERIF_SEED mixed base seed */
 extern uint64_t g_case;       /* current case index */
+extern uint64_t g_outer_case; /* nested runs: enclosing case index */
+extern int g_nested;          /* set while running a nested v_run_cases inside a case */
 extern const char *g_check;   /* current check / mode name */
 
 /* violation: key must be stable across seeds (classification, not data) */
